@@ -47,6 +47,7 @@ func runC16(c *Ctx) {
 	// the description is built from the shared parsed schema without writing to it (C07/ast-immutable)
 	c07ASTImmutable(c)
 	layoutAgreement(c)
+	nilDerefOnNilEdge(c, "nil-deref-on-nil-edge", pkgIntrosp)
 	c.R.Rule("gate", "in every materialised package: calls of introspection.Wrap* and reads of the embedded SDL table outside init are edge-dominated by DisableIntrospection == false", 2*len(c.Gen))
 	for _, g := range c.Gen {
 		n := 0
